@@ -661,7 +661,7 @@ def native_build(g, wd, env):
         if rc != 0:
             raise Infra("native build failed: %s" % (err or out)[-2000:])
         objs.append(o)
-    rc, out, err, _, to = slot_sh(["gcc", "-fsanitize=address,undefined"] + objs + [lib, "-o", exe, "-lpthread", "-ldl"],
+    rc, out, err, _, to = slot_sh(["gcc", "-fsanitize=address,undefined", "-Wl,--allow-multiple-definition"] + objs + [lib, "-o", exe, "-lpthread", "-ldl"],
                                   timeout=600, env=env)
     if rc != 0:
         raise Infra("native build failed: %s" % (err or out)[-2000:])
